@@ -147,6 +147,27 @@ class Walk:
                 continue
             newest = parse_ublock(allf[-1])
             unc = newest is not None and newest.get("hdf5_hashsum") is None
+            if unc and ck == self.cls_key:
+                # merely LOOKING at an interrupted patch never commits it: the low-level opener with its default arguments, then
+                # close() with its default (commit=True), must leave every file byte-identical (the newest stays recognisably uncommitted)
+                look = allf[0].parent / "look"
+                shutil.rmtree(look, ignore_errors=True)
+                look.mkdir()
+                cp = [Path(shutil.copyfile(f, look / f.name)) for f in allf]
+                for f in allf:
+                    m_ = mf_path(f)
+                    if m_.is_file():
+                        shutil.copyfile(m_, look / m_.name)
+                before = {f.name: sha(f) for f in cp}
+                try:
+                    r_ = cls._open(list(cp))
+                    r_.close()
+                    lerr = None
+                except Exception as e:  # noqa
+                    lerr = f"{type(e).__name__}: {str(e)[:100]}"
+                after = {f.name: sha(f) for f in cp}
+                R.check(lerr is not None or after == before, f"{sig}:as-{ck}:looking-commits-the-interrupted-patch", f"after crash at {label}: opening the complete set with {cls.__name__}._open(files) and closing it changed {[n for n in before if after.get(n) != before[n]]} (an interrupted patch must stay uncommitted until someone opens it for writing)", case, ["ih5/record.py:IH5Record._open", "ih5/record.py:IH5Record.close"])
+                shutil.rmtree(look, ignore_errors=True)
             if unc:
                 self.stats["complete_uncommitted"] += 1
                 if tag == "raw":
